@@ -26,6 +26,8 @@
 //!   the protocol still holds
 //! * `resp <p> k=<v>/<codec>/<mh>/<dlen> <entries>`   `BitswapHandle::send_response`; entries are
 //!   `b<size>.<fill>` (block), `h<i>` / `d<i>` (presence Have / DontHave of CID number `i`), or `-`
+//! * `burst <p> <n> k=...`                   `n` one-block responses through the real handle while the loop is
+//!   not polled: the 4096-slot command channel fills up (`sus<k>`: the user's future suspended after `k`)
 //! * `req <p> k=... <cids>`                   `BitswapHandle::send_request`; `b<i>` / `h<i>` or `-`
 //! * `insub <p>`                              inbound substream `i<k>` of the peer
 //! * `inmsg i<k> [w=<cidhex>/<type>+..] [b=<prefixhex>:<data>[:<digest>]+..] [p=<cidhex>/<type>+..] [nowl]
@@ -95,6 +97,7 @@ const FOREVER: Duration = Duration::from_secs(10 * 365 * 24 * 3600);
 const MAX_ENTRIES: usize = 64;
 const MAX_BLOCK: usize = 1 << 22;
 const MAX_DELAYS: usize = 16;
+const MAX_BURST: usize = 6000;
 const MAX_DELAY_MS: u64 = 600_000;
 const MAX_SETTLE_ROUNDS: usize = 512;
 
@@ -1064,6 +1067,43 @@ impl Session {
                 let Some(entries) = Self::entries(&kind, entries) else { return bad() };
                 self.handle.send_response(peer(p), entries).await;
                 "ok".into()
+            }
+            ["burst", p, count, kind] => {
+                // The user hands over `count` one-block responses back to back while the event loop is not
+                // polled (this future does not yield, the runtime has one thread): the command channel fills
+                // up. `sus<k>`: the user's `send_response` future suspended with `k` responses taken; it is
+                // then awaited while the loop runs and drains. Response `i` carries block `b<1 + i/251>.<i%251>`.
+                let (Some(p), Some(kind)) = (n(p), Kind::parse(kind)) else { return bad() };
+                let Some(count) = count.parse::<usize>().ok().filter(|c| (1..=MAX_BURST).contains(c)) else {
+                    return bad();
+                };
+                let Some(cid) = kind.cid(0) else { return bad() };
+                let done = std::cell::Cell::new(0usize);
+                let suspended_at = {
+                    let handle = &self.handle;
+                    let done = &done;
+                    let mut fut = Box::pin(tokio::task::unconstrained(async move {
+                        for i in 0..count {
+                            let block = vec![(i % 251) as u8; 1 + i / 251];
+                            handle
+                                .send_response(peer(p), vec![ResponseType::Block { cid, block }])
+                                .await;
+                            done.set(i + 1);
+                        }
+                    }));
+                    match futures::poll!(fut.as_mut()) {
+                        Poll::Ready(()) => None,
+                        Poll::Pending => {
+                            let k = done.get();
+                            fut.await;
+                            Some(k)
+                        }
+                    }
+                };
+                match suspended_at {
+                    None => "ok".into(),
+                    Some(k) => format!("sus{k}"),
+                }
             }
             ["req", p, kind, cids] => {
                 let (Some(p), Some(kind)) = (n(p), Kind::parse(kind)) else { return bad() };
